@@ -195,6 +195,21 @@ func exprIso(an *NilAnalysis, a, b ssa.Value, fa, fb string, depth int) bool {
 		if x.Op == token.ADD || x.Op == token.MUL {
 			return exprIso(an, x.X, y.Y, fa, fb, depth+1) && exprIso(an, x.Y, y.X, fa, fb, depth+1)
 		}
+	case *ssa.Call:
+		// the same function (or the same closure value) applied to isomorphic arguments
+		y, ok := b.(*ssa.Call)
+		if !ok || len(x.Call.Args) != len(y.Call.Args) || x.Call.IsInvoke() || y.Call.IsInvoke() {
+			return false
+		}
+		if x.Call.Value != y.Call.Value {
+			return false
+		}
+		for i := range x.Call.Args {
+			if !exprIso(an, x.Call.Args[i], y.Call.Args[i], fa, fb, depth+1) {
+				return false
+			}
+		}
+		return true
 	case *ssa.Convert:
 		y, ok := b.(*ssa.Convert)
 		return ok && types.Identical(x.Type(), y.Type()) && exprIso(an, x.X, y.X, fa, fb, depth+1)
